@@ -17,7 +17,9 @@ EXPLANATION = (
     "(GRD-sentinel) a value substituted for NA inside unique's hash key is accompanied by the NA mask as its own key "
     "component -- a sentinel computed from the data (nanmin - 1) is not provably outside the value domain under IEEE-754; "
     "(GRD-empty) reductions reachable from these methods are guarded for 0-row frames; (LEN) the boolean-mask parser rejects "
-    "masks of the wrong length. Not decided: which rows a mask selects; correctness of the first-seen scan."
+    "masks of the wrong length; (STATE) no subsetting method reads the grouping state an earlier group_by() left on the frame; "
+    "(SIB-parse) column-position parsers mirror the row-position parsers; the default count replaces only a count that was not "
+    "given. Not decided: which rows a mask selects; correctness of the first-seen scan."
 )
 ASSUMPTIONS = ["np.take keeps / np.delete drops exactly the given positions; advanced indexing keeps them in the given order"]
 
